@@ -269,14 +269,14 @@ def modelLine (st : St) (ws : List String) : St × String :=
           (putTab st id { e with t := t }, showRes (fun _ => "") r)
         | "setworkers" => (putTab st id { e with t := { t with workers := a } }, "ok")
         | "ltfind" => let p := t.ltFind c a; (st, s!"{showPos p} {posVal c t p}")
-        | "ltcount" => (st, if t.ltFind c a == t.cur.endPos then "0" else "1")
+        | "ltcount" => (st, toString (t.ltCount c a))
         | "ltat" =>
-          let p := t.ltFind c a
-          (st, if p == t.cur.endPos then "err oor" else s!"ok {posVal c t p}")
+          match t.ltAt c a with
+          | .ok v => (st, s!"ok {a}={v}")
+          | .err er => (st, "err " ++ errName er)
         | "ltequalrange" =>
-          let p := t.ltFind c a
-          if p == t.cur.endPos then (st, s!"{showPos p} {showPos p}")
-          else (st, s!"{showPos p} {showPos (t.cur.itNext c.S p)}")
+          let r := t.ltEqualRange c a
+          (st, s!"{showPos r.1} {showPos r.2}")
         | "lterase" =>
           let (t, n) := t.ltErase c a
           (putTab st id { e with t := t }, toString n)
@@ -287,7 +287,7 @@ def modelLine (st : St) (ws : List String) : St × String :=
             let (t, nx) := t.ltEraseAt c p
             (putTab st id { e with t := t }, s!"{showPos nx} {posVal c t nx}")
         | "ltindex" =>
-          match t.ltInsert c a 0 with
+          match t.ltIndex c a 0 with
           | (t, .ok (p, _)) => (putTab st id { e with t := t }, s!"ok {posVal c t p}")
           | (t, .err er) => (putTab st id { e with t := t }, "err " ++ errName er)
         | "read" =>
